@@ -635,6 +635,8 @@ func ifacePlugins(r *refResult, where string, ifi dIface, max time.Duration, epo
 				r.reject("%s: bad server %q", key, s.Text)
 			case "v4", "mapped":
 				r.reject("%s: server %q is not IPv6", key, s.Text)
+			case "zoned":
+				r.unspec("RDNSS server address with a zone")
 			case "wildcard":
 				wilds++
 				pl.Auto = true
@@ -1197,7 +1199,11 @@ func (g *vg) genRDNSS(i int) dRDNSS {
 		}
 		if g.bad(l + ":servers") {
 			var b dAddr
-			switch rapid.IntRange(0, 4).Draw(g.t, l+":badserver") {
+			switch rapid.IntRange(0, 5).Draw(g.t, l+":badserver") {
+			case 5:
+				// an address with a zone: netip parses it, the option cannot carry the zone (finding F23); whether the
+				// parser may accept it is not stated, what an accepted one does to the RA is C03's business
+				b = dAddr{Text: rapid.SampledFrom([]string{"fe80::53%eth0", "fe80::1%eth0", "2001:db8::53%1", "::%eth0", "fe80::1%25eth0"}).Draw(g.t, l+":zoned"), Kind: "zoned"}
 			case 0:
 				// (the IPv4 unspecified address is "unspecified" for netip just as :: is - it is still not IPv6)
 				b = dAddr{Text: rapid.SampledFrom([]string{"192.0.2.53", "0.0.0.0", "255.255.255.255", "127.0.0.1", "0.0.0.0"}).Draw(g.t, l+":v4"), Kind: "v4"}
